@@ -586,6 +586,18 @@ func conc(h *head) []byte {
 			os.Stdout = f
 		}
 	}
+	// every goroutine walks the sub-requests with a stride that is coprime to their number, so that each repetition
+	// runs every sub-request exactly once (with 28 sub-requests a stride of 7 visited four of them seven times each)
+	stride := 7
+	gcd := func(a, b int) int {
+		for b != 0 {
+			a, b = b, a%b
+		}
+		return a
+	}
+	for n > 0 && gcd(stride, n) != 1 {
+		stride++
+	}
 	t0 := time.Now()
 	var wg sync.WaitGroup
 	for g := 0; g < h.Gor; g++ {
@@ -595,7 +607,7 @@ func conc(h *head) []byte {
 			var mine []rec
 			for rep := 0; rep < h.Reps; rep++ {
 				for k := 0; k < n; k++ {
-					i := (k*7 + g*3 + rep) % n
+					i := (k*stride + g*3 + rep) % n
 					if (g+rep+k)%5 == 0 {
 						runtime.Gosched()
 					}
